@@ -280,8 +280,9 @@ def _forms(repo, col):
              if wrong is not None else "clipping from below at min_radius not found"), node=wrong.node if wrong is not None else fi.node)
     # branch b is evaluated with ITS OWN radius function, at the centres
     calls_ = []
+    from sa.terms import fuse_comprehensions as _fuse_c
     for t_ in list(ex.returns) + [s_.value for s_ in ex.stores if s_.value is not None]:
-        calls_ += [x for x in t_.walk() if x.op == "callv" and x.args and T.find(x.args[0], lambda y: y.op == "param" and y.name == "radius_fns") is not None]
+        calls_ += [x for x in _fuse_c(t_).walk() if x.op == "callv" and x.args and T.find(x.args[0], lambda y: y.op == "param" and y.name == "radius_fns") is not None]
     ok = False
     det = None
     for x in calls_:
